@@ -237,6 +237,18 @@ def body_eq(ch, ctx):
     if same:
         ctx.check(hash(f) == hash(g), "equal-features-hash-differently", None, a=str(f))
         ctx.check(len({f, g}) == 1, "equal-features-not-deduplicated-in-set", None, a=str(f))
+    # a feature that was hashed / compared and is then edited into the other one
+    h = mk(specs[i])
+    hash(h), h == g, {h: 1}
+    for k, v in specs[j][0].items():
+        setattr(h, k, v)
+    for k in list(h.attributes.keys()):
+        del h.attributes[k]
+    for k, v in specs[j][1].items():
+        h.attributes[k] = list(v)
+    h.extra = list(specs[j][2])
+    if str(h) == str(g):
+        ctx.check(h == g and hash(h) == hash(g) and len({h, g}) == 1, "edited-feature-equal-but-hashes-differently", None, a=str(h))
 
 
 def body(ch, ctx):
